@@ -532,8 +532,11 @@ def predicate14(sc, ev):
                 # the request was written; was it also handed to the correlator (a failed write is not "sent")?
                 # (a write the peer answers by resetting the connection raises out of the send: the request never reaches
                 # the correlator, the sender ends, and the sweep comes with the bind request of the reconnect)
-                done = [e for e in ev if e[1] == 'write' and e[0] >= sent[0][0] - 1e-9 and e[0] <= sent[0][0] + 1e-3] and \
-                       [e for e in ev if e[1] == 'put-start' and e[3] == sent[0][3] and e[0] <= sent[0][0] + 1e-3]
+                done = [e for e in ev if e[1] == 'write' and e[0] >= sent[0][0] - 1e-9 and e[0] <= sent[0][0] + 1e-3]
+                handed = [e for e in ev if e[1] == 'put-start' and e[3] == sent[0][3] and e[0] <= sent[0][0] + 1e-3]
+                raised = [e for e in ev if e[1] == 'send_error' and e[4] != 'TimeoutError' and abs(e[0] - sent[0][0]) <= 1e-3]
+                if not handed and raised:
+                    done = []       # the send itself failed (reported as such): not a request that was sent
                 if done:
                     return ('message %s outlived its time-to-live at %.3f; the next request (%s at %.3f) was sent without the '
                             'time-out being reported (reported: %s)' % (m['log'], t_exp, sent[0][2], sent[0][0], t_err[:1] or 'never'))
